@@ -196,6 +196,9 @@ func (rt *Transfer) recvGenerator(idx int, f *File) error {
 	}
 
 	if rt.Opts.PreserveLinks && mode == rsync.S_IFLNK {
+		if rt.Opts.DryRun {
+			return nil
+		}
 		// TODO: safe_symlinks option
 		if err == nil {
 			// local file exists, verify target matches
@@ -229,6 +232,9 @@ func (rt *Transfer) recvGenerator(idx int, f *File) error {
 		mode == rsync.S_IFBLK ||
 		mode == rsync.S_IFSOCK ||
 		mode == rsync.S_IFIFO) {
+		if rt.Opts.DryRun {
+			return nil
+		}
 		if err := rt.createDevice(f, st); err != nil {
 			return err
 		}
@@ -270,6 +276,9 @@ func (rt *Transfer) recvGenerator(idx int, f *File) error {
 	}
 
 	if !st.Mode().IsRegular() {
+		if rt.Opts.DryRun {
+			return requestFullFile()
+		}
 		// A non-regular file with this name exists. Delete it so that we can
 		// create our file instead.
 		if err := rt.DestRoot.Remove(f.Name); err != nil {
